@@ -12,6 +12,10 @@ LITS = [["l", "1", None, ref.INT], ["l", "2", None, ref.INT], ["l", "0", None, r
         ["l", "", None, None], ["l", "y", "en", None], ["l", "true", None, ref.BOOL], ["l", "3", None, ref.INT],
         # equal in value to LITS[0] but different terms (ties under ORDER BY / "=" that are not ties of identity)
         ["l", "1.0", None, ref.DEC], ["l", "1.0", None, ref.DBL]]
+# constants for inline data only: a negative decimal and one with more digits than Python's default decimal context keeps (in query text
+# written as a bare token they are read as a sign applied to a number)
+NEG_DEC = ["l", "-1.5", None, ref.DEC]
+LONG_NEG_DEC = ["l", "-1" + "0" * 30 + ".5", None, ref.DEC]
 VARS = ["a", "b", "c", "d", "e"]
 GRAPHS = [["u", "urn:g1"], ["u", "urn:g2"]]
 
@@ -202,7 +206,8 @@ def bgp(min_size=1, pool=None):
 
 def exprs(depth=2, exists=True):
     leaf = st.one_of(st.sampled_from(VARS).map(lambda v: ["var", v]), st.sampled_from(VARS).map(lambda v: ["var", v]),
-                     st.sampled_from(LITS + NODES[:3]).map(lambda t: ["const", t]), st.sampled_from(VARS).map(lambda v: ["bound", v]))
+                     st.sampled_from(LITS + NODES[:3] + [NEG_DEC, LONG_NEG_DEC]).map(lambda t: ["const", t]),
+                     st.sampled_from(VARS).map(lambda v: ["bound", v]))
 
     def ext(inner):
         opts = [
@@ -233,7 +238,7 @@ def exprs(depth=2, exists=True):
 
 def values_pattern():
     vs = st.lists(st.sampled_from(VARS), min_size=1, max_size=2, unique=True)
-    cell = st.one_of(st.none(), st.sampled_from(NODES[:3] + LITS[:4]), st.sampled_from(NODES[:3]))
+    cell = st.one_of(st.none(), st.sampled_from(NODES[:3] + LITS[:4]), st.sampled_from(NODES[:3]), st.sampled_from(NODES[:3] + LITS[:4] + [NEG_DEC, LONG_NEG_DEC]))
     return vs.flatmap(lambda v: st.lists(st.lists(cell, min_size=len(v), max_size=len(v)), min_size=0, max_size=3).map(lambda rows: ["values", v, rows]))
 
 
@@ -262,7 +267,7 @@ def patterns(draw, depth=3, dataset=False, pool=None):
         if not scope:
             return A
         vs = draw(st.lists(st.sampled_from(scope), min_size=1, max_size=2, unique=True))
-        terms = [x for t in (pool or []) for x in t if x[0] != "b"] + NODES[:3] + LITS[:4]
+        terms = [x for t in (pool or []) for x in t if x[0] != "b"] + NODES[:3] + LITS[:4] + [NEG_DEC, LONG_NEG_DEC]
         rows = draw(st.lists(st.lists(st.sampled_from(terms), min_size=len(vs), max_size=len(vs)), min_size=1, max_size=3))
         if draw(st.booleans()):
             rows.append(list(rows[0]))
